@@ -1,135 +1,119 @@
-(* Extract/C01.v — run a history of Evaluate/SetValue/Build on a workbook given
-   on the wire; answer, per operation, the returned value and the snapshot of
-   the cache (built flag and value of every node).
+(* Extract/C03.v — entry points for C03: the persisted model of Model/Persist.v
+   on the concrete formula language of Model/GraphExpr.v.
 
-   wire: history (nodes ops)      spec (nodes)
-     node = (input? range? deps inp0 stored formula)
-     formula = (0) | (1 cols) | (2 operand) | (3 opcode operand operand)
-             | (4 operand) | (5 which operand)
-     operand = (0 i) | (1 z) | (2 c1 c2 …)
-     op = (0 n) evaluate | (1 a value) set_value | (2 n) build            *)
-From Coq Require Import ZArith List String Extraction ExtrOcamlBasic.
-From PV Require Import Lib.Py Extract.Sx Model.Ops Model.Graph Model.GraphExpr.
+   wire (workbooks, values and operations as in Extract/C01.v):
+     history (nodes ops), spec (nodes)            the C01 entries
+     persist (nodes codes keys order pre settings post)
+       codes    = per node the python code text of its formula ((…code points…); () for non-formulas)
+       keys     = per node its sort key
+       order    = key order of the cell map when the model is saved (node indices)
+       pre      = operations that bring init to the state that is saved
+       settings = (cycles filename hash extra), extra = (0) None | (1 ((key value) …))
+       post     = the post-load history
+     answer = (doc trace_original loaded doc-of-a-second-save-of-the-same-object)
+       doc    = ((key (0 value) | (1 ((n value) …))) …) in key order
+       trace  = ((value snapshot) …) as in the history entry
+       loaded = (0 exn-code)
+              | (1 (cycles filename hash) snapshot trace doc-of-a-save-of-the-loaded-model keys-of-extra_data) *)
+From Coq Require Import ZArith List Bool String Extraction ExtrOcamlBasic.
+From PV Require Import Lib.Py Extract.Sx Model.Ops Model.Graph Model.GraphExpr Model.Persist.
+From PV Require Import Extract.C01.
 Import ListNotations.
 Open Scope string_scope.
+Open Scope bool_scope.
 
-Definition dec_operand (x : sx) : option operand :=
+Definition dec_str (x : sx) : option (list Z) :=
+  match x with SL l => sx_zs l | _ => None end.
+Definition dec_nat (x : sx) : option nat :=
+  match x with SZ z => Some (Z.to_nat z) | _ => None end.
+
+Definition dec_extra (x : sx) : option (option file) :=
   match x with
-  | SL [SZ 0; SZ i] => Some (ORef (Z.to_nat i))
-  | SL [SZ 1; SZ z] => Some (OLit z)
-  | SL (SZ 2 :: l) => match sx_zs l with Some s => Some (OText s) | None => None end
+  | SL [SZ 0] => Some None
+  | SL [SZ 1; SL l] =>
+      option_map Some
+        (dec_list (fun kv => match kv with
+                             | SL [k; v] => match dec_str k, dec_val v with
+                                            | Some k, Some v => Some (k, TV v) | _, _ => None end
+                             | _ => None end) l)
   | _ => None
   end%Z.
 
-Definition op_of_code (z : Z) : option Ops.op :=
-  match z with
-  | 0 => Some Add | 1 => Some Sub | 2 => Some Mult | 3 => Some Div | 4 => Some Pow
-  | 5 => Some BitAnd | 6 => Some USub | 7 => Some Eq | 8 => Some NotEq
-  | 9 => Some Lt | 10 => Some LtE | 11 => Some Gt | 12 => Some GtE
-  | _ => None
-  end%Z.
+Definition enc_doc (f : file) : sx :=
+  SL (map (fun kv => SL [SL (map SZ (fst kv));
+                         match snd kv with
+                         | TV v => SL [SZ 0; enc_val v]
+                         | TCells l => SL [SZ 1; SL (map (fun x => SL [SZ (Z.of_nat (fst x)); enc_val (snd x)]) l)]
+                         end]) f).
 
-Definition dec_formula (x : sx) : option formula :=
-  match x with
-  | SL [SZ 0] => Some FNone
-  | SL [SZ 1; SZ c] => Some (FRange (Z.to_nat c))
-  | SL [SZ 2; a] => option_map FRef (dec_operand a)
-  | SL [SZ 3; SZ o; a; b] =>
-      match op_of_code o, dec_operand a, dec_operand b with
-      | Some o, Some a, Some b => Some (FBin o a b) | _, _, _ => None end
-  | SL [SZ 4; a] => option_map FNeg (dec_operand a)
-  | SL [SZ 5; SZ w; a] => option_map (FAgg (Z.to_nat w)) (dec_operand a)
-  | _ => None
-  end%Z.
+Section Concrete.
+  Variable nodes : list nodeinfo.
+  Variable codes : list (list Z).
+  Variable keys : list nat.
 
-Record nodeinfo := { ni_input : bool; ni_range : bool; ni_deps : list nat;
-                     ni_inp0 : pyval; ni_stored : pyval; ni_formula : formula }.
+  Definition W0 : workbook := mk_wb nodes.
+  Definition code0 (n : nat) : list Z := nth n codes [].
+  Definition geo : geometry :=
+    {| g_n := wb_n W0; g_range := wb_range W0;
+       g_members := fun n => if wb_range W0 n then wb_deps W0 n else [];
+       g_key := fun n => nth n keys 0%nat |}.
+  (* ExcelFormula(python code): the formula node of the workbook that carries this code *)
+  Definition find_code (t : list Z) : option nodeinfo :=
+    match find (fun n => negb (wb_input W0 n) && negb (wb_range W0 n) && str_eqb (code0 n) t)
+               (seq 0 (wb_n W0)) with
+    | Some n => Some (nth n nodes dflt)
+    | None => None
+    end.
+  Definition cdeps0 (t : list Z) : list nat :=
+    match find_code t with Some ni => ni_deps ni | None => [] end.
+  Definition csem0 (t : list Z) (vals : list pyval) : pyval :=
+    match find_code t with Some ni => sem_formula (ni_formula ni) vals | None => raised end.
+  Definition rsem0 (n : nat) (vals : list pyval) : pyval :=
+    sem_formula (ni_formula (nth n nodes dflt)) vals.
+End Concrete.
 
-Definition dec_node (x : sx) : option nodeinfo :=
-  match x with
-  | SL [SZ i; SZ r; SL ds; v0; st; fm] =>
-      match sx_zs ds, dec_val v0, dec_val st, dec_formula fm with
-      | Some ds, Some v0, Some st, Some fm =>
-          Some {| ni_input := negb (i =? 0)%Z; ni_range := negb (r =? 0)%Z;
-                  ni_deps := map Z.to_nat ds; ni_inp0 := v0; ni_stored := st; ni_formula := fm |}
-      | _, _, _, _ => None
-      end
-  | _ => None
-  end.
-
-Fixpoint dec_list {A} (f : sx -> option A) (l : list sx) : option (list A) :=
-  match l with
-  | [] => Some []
-  | x :: l' => match f x, dec_list f l' with
-               | Some a, Some r => Some (a :: r) | _, _ => None end
-  end.
-
-Definition dflt : nodeinfo :=
-  {| ni_input := true; ni_range := false; ni_deps := []; ni_inp0 := VNone;
-     ni_stored := VNone; ni_formula := FNone |}.
-
-Definition mk_wb (nodes : list nodeinfo) : workbook :=
-  {| wb_n := List.length nodes;
-     wb_input := fun n => ni_input (nth n nodes dflt);
-     wb_deps := fun n => ni_deps (nth n nodes dflt);
-     wb_range := fun n => ni_range (nth n nodes dflt);
-     wb_inp0 := fun n => ni_inp0 (nth n nodes dflt);
-     wb_stored := fun n => ni_stored (nth n nodes dflt) |}.
-
-Definition mk_sem (nodes : list nodeinfo) (n : nat) (vals : list pyval) : pyval :=
-  sem_formula (ni_formula (nth n nodes dflt)) vals.
-
-Definition dec_op (x : sx) : option gop :=
-  match x with
-  | SL [SZ 0; SZ n] => Some (Evaluate (Z.to_nat n))
-  | SL [SZ 1; SZ a; v] => option_map (SetValue (Z.to_nat a)) (dec_val v)
-  | SL [SZ 2; SZ n] => Some (Build (Z.to_nat n))
-  | _ => None
-  end%Z.
-
-Definition snapshot (W : workbook) (s : state) : sx :=
-  SL (map (fun n => SL [SZ (if st_built s n then 1 else 0)%Z; enc_val (st_cache s n)])
-          (seq 0 (wb_n W))).
-
-Fixpoint run_trace (W : workbook) (sem : nat -> list pyval -> pyval) (s : state) (h : list gop)
-  : list sx :=
-  match h with
-  | [] => []
-  | o :: h' =>
-      let '(s1, v) := step W sem s o in
-      SL [enc_val v; snapshot W s1] :: run_trace W sem s1 h'
-  end.
-
-Definition history_entry (args : list sx) : sx :=
+Definition persist_entry (args : list sx) : sx :=
   match args with
-  | [SL nodes; SL ops] =>
-      match dec_list dec_node nodes, dec_list dec_op ops with
-      | Some ns, Some os =>
-          let W := mk_wb ns in
-          SL (run_trace W (mk_sem ns) (init W) os)
-      | _, _ => bad_args
+  | [SL nodes; SL codes; SL keys; SL order; SL pre; SL [cy; fn; hs; ex]; SL post] =>
+      match dec_list dec_node nodes, dec_list dec_str codes, dec_list dec_nat keys,
+            dec_list dec_nat order, dec_list dec_op pre, dec_list dec_op post with
+      | Some ns, Some cs, Some ks, Some ord, Some pre, Some post =>
+          match dec_val cy, dec_val fn, dec_val hs, dec_extra ex with
+          | Some cy, Some fn, Some hs, Some ex =>
+              let W := W0 ns in
+              let G := geo ns ks in
+              let cd := cdeps0 ns cs in let cse := csem0 ns cs in let rs := rsem0 ns in
+              let sem := sem_of cse rs (wb_range W) (code0 cs) in
+              let M := {| pm_wb := W; pm_code := code0 cs;
+                          pm_state := fst (run W sem (init W) pre);
+                          pm_order := ord; pm_cycles := cy; pm_filename := fn; pm_hash := hs;
+                          pm_extra := ex |} in
+              let doc := fst (to_text G M) in
+              SL [ enc_doc doc;
+                   SL (run_trace W (pm_sem cse rs M) (pm_state M) post);
+                   match from_text G cd cse rs doc with
+                   | Ok M' =>
+                       SL [SZ 1; SL [enc_val (pm_cycles M'); enc_val (pm_filename M'); enc_val (pm_hash M')];
+                           snapshot (pm_wb M') (pm_state M');
+                           SL (run_trace (pm_wb M') (pm_sem cse rs M') (pm_state M') post);
+                           enc_doc (fst (to_text G M'));
+                           SL (map (fun kv => SL (map SZ (fst kv)))
+                                   (match pm_extra M' with Some d => d | None => [] end))]
+                   | Raise e => SL [SZ 0; SZ (exn_code e)]
+                   end;
+                   enc_doc (fst (to_text G (snd (to_text G M)))) ]
+          | _, _, _, _ => bad_args
+          end
+      | _, _, _, _, _, _ => bad_args
       end
   | _ => bad_args
-  end.
-
-(* from-scratch values of every node under the workbook's inputs (the specification) *)
-Definition spec_entry (args : list sx) : sx :=
-  match args with
-  | [SL nodes] =>
-      match dec_list dec_node nodes with
-      | Some ns =>
-          let W := mk_wb ns in
-          SL (map (fun n => enc_val (spec W (mk_sem ns) (wb_inp0 W) n)) (seq 0 (wb_n W)))
-      | None => bad_args
-      end
-  | _ => bad_args
-  end.
+  end%Z.
 
 Definition table : list entry :=
-  [ E "history" history_entry; E "spec" spec_entry ].
+  [ E "history" history_entry; E "spec" spec_entry; E "persist" persist_entry ].
 
 Definition dispatch (name : list Z) (args : list sx) : sx :=
-  match lookup table name with
+  match Sx.lookup table name with
   | Some f => f args
   | None => SL [SZ 3]
   end.
